@@ -238,7 +238,9 @@ def run(tier, seed, factor=1):
                 "(c) strategy equality across creation routes; non-trivial = a specification / a rule form; distinct by config / (rule, form)")
     rnd = random.Random(seed * 1000003 + 18)
     N = common.scale(tier, 5, 7)
-    outs = specrun.pool_map(spec_worker, [(c, N) for c in speccheck.make_configs(rnd, common.scale(tier, 160, 2000) * factor)])
+    cfgs = speccheck.make_configs(rnd, common.scale(tier, 160, 2000) * factor)
+    cfgs += [specrun.rand_config(rnd, "packver") for _ in range(common.scale(tier, 24, 200) * factor)]
+    outs = specrun.pool_map(spec_worker, [(c, N) for c in cfgs])
     specrun.quiet()
     pairs = []
     for o in outs:
@@ -265,6 +267,17 @@ def run(tier, seed, factor=1):
     for (p, inp), line in zip(pairs, lean):
         if line != "rt=1 " + p[1]:
             res.diff("JSON shape of the rule form vs Lean toJ / round trip", inp, line[:300], ("rt=1 " + p[1])[:300])
+    # bijections: the reloaded bijection maps every object like the original (the C12 machinery, JSON-related verdicts only)
+    from props import c12
+
+    bouts = specrun.pool_map(c12.worker, [(seed * 7877 + 500 + i, 3, 5) for i in range(common.scale(tier, 48, 200) * factor)])
+    specrun.quiet()
+    for o in bouts:
+        res.case(("bijections", o["seed"], o["bijections"]), nontrivial=o["bijections"] >= 1)
+        res.dist["bijections round-tripped through JSON"] += o["bijections"]
+        for sig, inp, d in o["problems"]:
+            if "json" in sig or "reloaded" in sig or "reloaded" in str(d):
+                res.fail("bijection:" + sig, inp, d)
     eq, ne = strategy_equality_cases()
     for name, a, b in eq:
         res.case(("streq", name))
